@@ -704,6 +704,10 @@ structure RoundedOk (m' : Nat) (e' : Int) : Prop where
   he1 : -1074 ≤ e'
   he2 : e' ≤ 971
 
+theorem acc_shift (N n0 B B' D : Nat) (h1 : N * B' = n0 * B) (h2 : B ≤ B')
+    (h : 2 * absdiff (n0 * B) D ≤ B) : 2 * absdiff (N * B') D ≤ B' := by
+  rw [h1]; omega
+
 /-- **The scientific-notation pipeline is a projection.** `x` a normal double, `k` its decimal
 exponent, `r = round(x, d − k)`. Then the pair `(N, K)` printed for `r` has `d + 1` digits,
 reading the printed decimal `N·10^(K−d)` gives `r` back, and rounding `r` at its own decimal
@@ -715,7 +719,10 @@ theorem sci_core (m : Nat) (e : Int) (h : wfn m e) (d : Nat) (hd : d ≤ 12) (m'
     -300 ≤ (sci m' e' d).2 ∧ (sci m' e' d).2 ≤ 320 ∧
     nd53 (sci m' e' d).1 ((d : Int) - (sci m' e' d).2) = some (m', e') ∧
     nd53 (roundScaled m' e' ((d : Int) - floorLog10 m' e')) ((d : Int) - floorLog10 m' e') = some (m', e') ∧
-    floorLog10 m e - 1 ≤ floorLog10 m' e' ∧ floorLog10 m' e' ≤ floorLog10 m e + 1 := by
+    floorLog10 m e - 1 ≤ floorLog10 m' e' ∧ floorLog10 m' e' ≤ floorLog10 m e + 1 ∧
+    -- the digits printed are within half a unit (of their last place) of `x` itself
+    2 * absdiff ((sci m' e' d).1 * (2 ^ (-(-1074 : Int)).toNat * T ((sci m' e' d).2 - d))) (units (-1074) m e * 10 ^ 400) ≤
+      2 ^ (-(-1074 : Int)).toNat * T ((sci m' e' d).2 - d) := by
   obtain ⟨hm52, hm53, he1, he2⟩ := h
   have hwf : wfn m e := ⟨hm52, hm53, he1, he2⟩
   have hm0 : m ≠ 0 := by
@@ -850,10 +857,14 @@ theorem sci_core (m : Nat) (e : Int) (h : wfn m e) (d : Nat) (hd : d ≤ 12) (m'
           rw [e1, hGd, hG10] at this
           unfold nd53
           rw [hGd, ← this, ← hc]; exact hr
-        · unfold nd53 at hr ⊢; exact ⟨hr, by omega, by omega⟩
+        · unfold nd53 at hr ⊢
+          refine ⟨hr, by omega, by omega, ?_⟩
+          apply acc_shift _ n0 (U * T (k - d)) _ _ _ _ f3
+          · rw [hTkd1, hc, Nat.pow_succ]; grind
+          · rw [hTkd1]; exact Nat.mul_le_mul_left U (by omega)
       · have hc' : (n0 == 10 ^ (d + 1)) = false := by simpa using hc
         simp only [hc', Bool.false_eq_true, if_false]
-        refine ⟨f1, by rw [← hG10]; omega, by omega, by omega, hr, hr, by omega, by omega⟩
+        refine ⟨f1, by rw [← hG10]; omega, by omega, by omega, hr, hr, by omega, by omega, f3⟩
     · -- (b) r is the next power of ten or above
       have hyb' : 10 * G * (U * T (k - d)) ≤ Y * S := by omega
       obtain ⟨g1, g2, g3⟩ := pos_above (X * S) (Y * S) (U * T (k - d)) G hB h1 h2
@@ -884,7 +895,10 @@ theorem sci_core (m : Nat) (e : Int) (h : wfn m e) (d : Nat) (hd : d ≤ 12) (m'
         unfold nd53; rw [← hsh]
         have : G * 10 = n0 := by omega
         rw [this]; exact hr
-      exact ⟨Nat.le_refl _, by rw [← hG10]; omega, by omega, by omega, hr', hr', by omega, by omega⟩
+      refine ⟨Nat.le_refl _, by rw [← hG10]; omega, by omega, by omega, hr', hr', by omega, by omega, ?_⟩
+      apply acc_shift _ n0 (U * T (k - d)) _ _ _ _ f3
+      · rw [hTkd1, g1]; grind
+      · rw [hTkd1]; exact Nat.mul_le_mul_left U (by omega)
   · -- (c) r fell below the decade of x
     have hyc : Y * S < G * (U * T (k - d)) := by omega
     have hBB : U * T (k - d) = 10 * (U * T (k - d - 1)) := by rw [hTkd]; grind
@@ -943,6 +957,8 @@ theorem sci_core (m : Nat) (e : Int) (h : wfn m e) (d : Nat) (hd : d ≤ 12) (m'
     rw [e2] at hsh
     unfold nd53 at hr' ⊢
     have : 10 * G = G * 10 := by omega
-    rw [this, hsh]; exact ⟨hr', by omega, by omega⟩
+    rw [this, hsh]
+    refine ⟨hr', by omega, by omega, ?_⟩
+    rw [hGd, ← g1]; exact f3
 
 end Proofs.FloatE
